@@ -126,7 +126,7 @@ Definition inner_set (k : bytes) (r : record) (s : store) : store * result N :=
           (with_mem s1 (insert k (mkRec (s_now s) c (r_flags r) (r_ttl r) (r_val r)) (s_mem s1)), ROk c)
         else (s, RErr KeyExists)
     | None =>
-        let c := saturating_add64 (r_cas r) 1 in
+        let c := next_client_cas (r_cas r) in
         (with_mem s (insert k (mkRec (s_now s) c (r_flags r) (r_ttl r) (r_val r)) (s_mem s)), ROk c)
     end
   else
